@@ -1,9 +1,60 @@
 #!/usr/bin/env python3
-import json,sys,glob
-for d in sorted(glob.glob('/verif/seeded/%s' % (sys.argv[1] if len(sys.argv)>1 else '*'))):
-    try: m=json.load(open(d+'/meta.json'))
-    except Exception as e: print(d,'no meta'); continue
-    c=m.get('confirmed_by_lead',{})
-    print('==',d.split('/')[-1],'| demo clean rc',c.get('demo_on_clean_tree',{}).get('rc'),'patched rc',c.get('demo_with_patch',{}).get('rc'),'| caught_by',m.get('caught_by'))
-    print('   tests:', ' / '.join(l for l in c.get('tests_with_patch',{}).get('summary','').splitlines() if 'passed' in l and not '0 passed' in l)[:200])
-    for p,v in m.get('our_checks_against_mutant',{}).items(): print('   ',p,'exit',v['exit'],'viol',v['violations'],json.dumps(v['sigs'])[:260])
+"""Report on the seeded (independently produced) mutants. `--table` rewrites the table in DESIGN.md."""
+import glob
+import json
+import os
+import re
+import sys
+
+VERIF = os.path.dirname(os.path.dirname(os.path.abspath(__file__)))
+
+
+def rows():
+    for d in sorted(glob.glob(os.path.join(VERIF, "seeded", "*"))):
+        try:
+            m = json.load(open(os.path.join(d, "meta.json")))
+        except Exception:
+            continue
+        yield os.path.basename(d), m
+
+
+def show(pattern):
+    for name, m in rows():
+        if pattern and not re.fullmatch(pattern.replace("*", ".*"), name):
+            continue
+        c = m.get("confirmed_by_lead", {})
+        print("==", name, "| demo clean rc", c.get("demo_on_clean_tree", {}).get("rc"), "patched rc", c.get("demo_with_patch", {}).get("rc"), "| caught_by", m.get("caught_by"))
+        print("   tests:", " / ".join(l for l in c.get("tests_with_patch", {}).get("summary", "").splitlines() if "passed" in l and "0 passed" not in l)[:200])
+        for p, v in m.get("our_checks_against_mutant", {}).items():
+            print("   ", p, "exit", v["exit"], "viol", v["violations"], json.dumps(v["sigs"])[:260])
+
+
+def table():
+    lines = ["| seeded id | breaks | what it changes / what it needs to manifest | caught by (quick tier) | first signatures |", "|---|---|---|---|---|"]
+    n = caught = 0
+    for name, m in rows():
+        n += 1
+        cb = m.get("caught_by") or []
+        caught += bool(cb)
+        summ = (m.get("summary") or "").replace("|", "/").replace("\n", " ")
+        needs = (m.get("needs_to_manifest") or "").replace("|", "/").replace("\n", " ")
+        txt = (summ[:170] + (" — needs: " + needs[:150] if needs else ""))
+        sigs = []
+        for p in cb:
+            for s in m["our_checks_against_mutant"][p]["sigs"][:2]:
+                sigs.append(",".join("%s=%s" % (k, v) for k, v in sorted(s.items()) if k in ("rule", "law", "cause", "kind", "operator", "field", "attribute")))
+        lines.append("| `%s` | %s | %s | %s | %s |" % (name, m.get("property"), txt, ", ".join(cb) if cb else "**missed**", "; ".join(dict.fromkeys(sigs))[:160]))
+    lines.append("")
+    lines.append("%d changes kept, %d reported by the quick tier of at least one check (after the strengthening described below)." % (n, caught))
+    p = os.path.join(VERIF, "DESIGN.md")
+    s = open(p).read()
+    s = re.sub(r"(<!-- MUTANTS-TABLE-BEGIN -->\n).*?(<!-- MUTANTS-TABLE-END -->)", lambda mm: mm.group(1) + "\n".join(lines) + "\n" + mm.group(2), s, flags=re.S)
+    open(p, "w").write(s)
+    print("table written: %d rows, %d caught" % (n, caught))
+
+
+if __name__ == "__main__":
+    if "--table" in sys.argv:
+        table()
+    else:
+        show(sys.argv[1] if len(sys.argv) > 1 else None)
